@@ -139,7 +139,7 @@ func main() {
 	}
 	r := matched
 	logInvocation(sig, map[string]interface{}{"fault": r})
-	if mark := os.Getenv("VERIF_SHIM_FIRED"); mark != "" {
+	if mark := os.Getenv("VERIF_SHIM_FIRED"); mark != "" && (r.Status != 0 || r.Signal != 0) {
 		if f, err := os.OpenFile(mark, os.O_CREATE|os.O_WRONLY|os.O_APPEND, 0o644); err == nil {
 			fmt.Fprintf(f, "%s\n", r.Match)
 			f.Close()
